@@ -747,9 +747,16 @@ class Constraints:
                         isinstance(self.origin_type, LogicalType)
                         and self.origin_type.combinator
                     ):
-                        if not any(
-                            issubclass(tp, origin_types)
+                        members = [
+                            (tp.__forward_value__ if tp.__forward_evaluated__ else None)
+                            if isinstance(tp, ForwardRef) else tp
                             for tp in self.origin_type.__args__
+                        ]
+                        # a member that is a ForwardRef not evaluated yet (Optional['T'] with T defined
+                        # later) can only be judged once it is resolved
+                        if not any(
+                            tp is None or (isinstance(tp, type) and issubclass(tp, origin_types))
+                            for tp in members
                         ):
                             raise exc.ConfigError(
                                 f"Constraint: {repr(key)} is only for type: "
